@@ -10,6 +10,7 @@ import (
 	"context"
 	"errors"
 	"fmt"
+	"math"
 	"sort"
 	"strings"
 	"sync"
@@ -136,6 +137,9 @@ var (
 		h.T = u.trusted.T - int64(time.Second)
 		return h
 	})
+	// heights at the other end of uint64: more than 2^63 away from the others (nothing may compute with signed differences)
+	ansHuge    = hv("Huge", 0, func(u *universe) *vhdr.Header { return u.at(1<<63+100, 31) })
+	ansMax     = hv("NearMax", 0, func(u *universe) *vhdr.Header { return u.at(math.MaxUint64-5, 32) })
 	ansReset   = answer{name: "Reset", act: actReset}
 	ansEmpty   = answer{name: "Empty", act: actEmpty}
 	ansGarbage = answer{name: "Garbage", act: actGarbage}
@@ -143,7 +147,7 @@ var (
 
 	small = []answer{ansA, ansB, ansCs, ansZh, ansInv, ansMiss, ansHang}
 	rich  = []answer{ansA, ansA, ansB, ansCs, ansC, ansZh, ansInv, ansMiss, ansHang, ansAs, ansBs, ansZ, ansZs, ansZp, ansZw, ansD, ansDh,
-		ansWrong, ansKnown, ansOld, ansFut, ansUnord, ansReset, ansEmpty, ansGarbage, ansBadCode}
+		ansWrong, ansKnown, ansOld, ansFut, ansUnord, ansReset, ansEmpty, ansGarbage, ansBadCode, ansHuge, ansMax}
 )
 
 // ---------------------------------------------------------------- scripted peers
@@ -710,6 +714,22 @@ func TestC09(t *testing.T) {
 						prio[i], prio[j] = prio[j], prio[i]
 					}
 					run(acts, prio, "sampled")
+				}
+			}
+			if cfg.nPeers >= 2 && cfg.offline == 0 {
+				// no quorum between far-apart heights: the highest one, in either arrival order
+				for _, top := range []answer{ansHuge, ansMax} {
+					acts := make([]answer, cfg.nPeers)
+					for i := range acts {
+						acts[i] = []answer{ansA, top, ansC, ansHuge}[i%4]
+					}
+					prio := identity(cfg.nPeers)
+					run(acts, prio, "boundary-heights")
+					rev := make([]int, len(prio))
+					for i := range prio {
+						rev[i] = prio[len(prio)-1-i]
+					}
+					run(acts, rev, "boundary-heights")
 				}
 			}
 			if cfg.nPeers >= 2 && cfg.offline == 0 {
